@@ -2354,7 +2354,9 @@ fn c20(g: &Group, obs: &[Obs]) -> Option<String> {
         let Some(code) = run.code else { return Some(format!("{}: the executable was killed by a signal; stderr: {}", c.id, String::from_utf8_lossy(&run.err).chars().take(200).collect::<String>())) };
         // ---- what the case is, from the case alone
         let policy = c.spec.on_error.clone().unwrap_or("ignore".into());
-        let noisy = parse_stream(input).is_none();
+        // (an escaped surrogate pair is conforming JSON, but jawk reads \uD800-\uDFFF escapes as malformed — they are outside
+        //  C01's domain —, so "noisy" is what the generator put in, not only what a strict reader rejects)
+        let noisy = parse_stream(input).is_none() || g.tag.strip_prefix("noise=").and_then(|n| n.parse::<usize>().ok()).map(|n| n > 0).unwrap_or(false);
         let bad_config = c.spec.selects.iter().any(|s| s.contains("(nope")) || c.spec.sorts.iter().any(|s| s.contains("sideways"));
         // the library entry point on the same case (in-memory streams): did it succeed, did it try to write?
         let lib_ok = lib.res == "ok";
@@ -2368,7 +2370,8 @@ fn c20(g: &Group, obs: &[Obs]) -> Option<String> {
         let report_due = policy == "stdout" && noisy && !bad_config && c.spec.take.is_none();
         let must_fail = bad_config || (policy == "panic" && noisy) || (kind != StdoutKind::Pipe && wrote_something && !lib_rejected)
             || (kind == StdoutKind::Full && report_due);
-        let must_succeed = !bad_config && !noisy && kind == StdoutKind::Pipe;
+        // (under the lenient policies every malformed region is skipped or reported, never fatal)
+        let must_succeed = !bad_config && kind == StdoutKind::Pipe && (!noisy || policy != "panic");
         if must_fail && code == 0 {
             return Some(format!("{what}: the run failed but the exit status is 0 (stderr: {err_text:?})"));
         }
